@@ -25,11 +25,12 @@ pub static PROP: Prop = Prop {
     fixed,
     replay: Some(replay),
     breadcrumb: false,
+    fuzz: &[],
 };
 
 fn budget(t: Tier) -> Budget {
     Budget {
-        cases: t.pick(800, 50_000),
+        cases: t.pick(8_000, 100_000),
         max_len: 16,
         shards: 16,
         dual_profile: false,
